@@ -2,5 +2,23 @@
 
 package vsched
 
+//go:norace
 func raceDisable() {}
-func raceEnable()  {}
+
+//go:norace
+func raceEnable() {}
+
+//go:norace
+func raceReleaseChan(*chanState) {}
+
+//go:norace
+func raceAcquireChan(*chanState) {}
+
+//go:norace
+func raceReleaseExit(*thread) {}
+
+//go:norace
+func raceAcquireExit(*thread) {}
+
+// RaceMode reports whether the binary was built with the race detector.
+const RaceMode = false
